@@ -51,8 +51,8 @@ def floors(tier):
 
 
 def plan(tier, seed):
-    chunks = [{"name": "directed", "seed": seed}]
-    n_chunks, per = (15, 7) if tier == "quick" else (60, 18)
+    chunks = [{"name": "directed", "seed": seed, "vis": v} for v in SETTINGS] + [{"name": "directed-groups", "seed": seed}]
+    n_chunks, per = (12, 8) if tier == "quick" else (60, 18)
     for p in range(n_chunks):
         chunks.append({"name": "random", "seed": seed, "part": p, "n": per})
     return chunks
@@ -119,7 +119,7 @@ def check_pair(ctx, manifest, visibility, ignore_methods=(), ignore_modules=(), 
         sys.path.insert(0, manifest["dir"])
     importlib.invalidate_caches()
     sut, helper = manifest["sut"], manifest["helper"]
-    case = {"seed": manifest["seed"], "index": manifest["index"], "tag": manifest["tag"], "features_forced": note,
+    case = {"gen": manifest["gen"], "features_forced": note,
             "visibility": visibility, "ignore_methods": list(ignore_methods), "ignore_modules": list(ignore_modules)}
     _setup_config(sut, visibility, ignore_methods, ignore_modules)
     try:
@@ -241,8 +241,8 @@ def run_chunk(spec, ctx):
     logging.disable(logging.CRITICAL)
     seed = spec["seed"]
     if spec["name"] == "directed":
-        k = 0
-        for vis in SETTINGS:
+        k = SETTINGS.index(spec.get("vis", "PUBLIC")) * 2 if "vis" in spec else 0
+        for vis in ([spec["vis"]] if "vis" in spec else SETTINGS):
             # every feature at once, no ignore lists
             m = modgen.generate(1000 + seed, 0, ctx.scratch, tag=f"c27d{k}", force=modgen.FEATURES, size="large")
             k += 1
@@ -270,6 +270,9 @@ def run_chunk(spec, ctx):
                     break
             check_pair(ctx, m, vis, ignore_methods=ign, ignore_modules=[m["helper"]], note="all")
             del rng
+        return
+    if spec["name"] == "directed-groups":
+        k = 100
         # the module under test itself in ignore_modules: nothing may be under test
         m = modgen.generate(1000 + seed, 1, ctx.scratch, tag=f"c27d{k}", size="small")
         check_pair(ctx, m, "ALL", ignore_modules=[m["sut"]])
@@ -294,3 +297,17 @@ def run_chunk(spec, ctx):
             else:
                 ign, mods = [], []
             check_pair(ctx, m, vis, ignore_methods=ign, ignore_modules=mods)
+
+
+def replay(w, ctx):
+    """Re-generate the witness' package and re-run the same (module, setting, ignore lists) pair."""
+    import logging
+
+    from vlib import modgen
+
+    logging.disable(logging.CRITICAL)
+    c = w["case"]
+    gen = dict(c["gen"], tag=c["gen"].get("tag", "") + "rp")
+    m = modgen.regenerate(gen, ctx.scratch)
+    ren = lambda n: n.replace(c["gen"].get("tag", "") + "_s", gen["tag"] + "_s") if isinstance(n, str) else n  # noqa: E731
+    check_pair(ctx, m, c["visibility"], [ren(n) for n in c.get("ignore_methods", [])], [ren(n) for n in c.get("ignore_modules", [])])
